@@ -3009,3 +3009,379 @@ func ruleCmpParallel(c *Ctx) []Obligation {
 	}
 	return obs
 }
+
+func init() {
+	register(&Rule{Name: "ERR.FANOUT", Props: []string{"C01"}, Floor: 1,
+		Doc: "a resolver does not concatenate, inside a loop, the whole error list that a recursive call of itself returns (memoised lists are shared: two members naming one typedef double the list at every level of a chain)",
+		Run: ruleErrFanout})
+}
+
+func ruleErrFanout(c *Ctx) []Obligation {
+	const R = "ERR.FANOUT"
+	var obs []Obligation
+	n := 0
+	for _, name := range []string{"yang.(*Type).resolve", "yang.(*Typedef).resolve"} {
+		fn := c.Fn(name)
+		if fn == nil {
+			continue
+		}
+		// functions from which fn is reachable again (its recursive cycle)
+		back := c.Reach([]*ssa.Function{fn}, nil)
+		eachInstr(fn, func(in ssa.Instruction) {
+			call, isC := in.(*ssa.Call)
+			if !isC {
+				return
+			}
+			bi, isB := call.Call.Value.(*ssa.Builtin)
+			if !isB || bi.Name() != "append" || len(call.Call.Args) != 2 || !isErrorSlice(call.Type()) {
+				return
+			}
+			src, isSrc := call.Call.Args[1].(*ssa.Call)
+			if !isSrc || src.Call.StaticCallee() == nil || !c.isRepoFn(src.Call.StaticCallee()) {
+				return
+			}
+			cal := src.Call.StaticCallee()
+			if !back[cal] || !c.Reach([]*ssa.Function{cal}, nil)[fn] {
+				return // not on a cycle with fn
+			}
+			n++
+			con := fmt.Sprintf("%s: wholesale append #%d of a recursive result is not in a loop", c.FnName(fn), n)
+			if loopHeaderOf(call.Block()) == nil {
+				obs = append(obs, ok(R, con, c.InstrPos(call), "one call, one list"))
+			} else {
+				obs = append(obs, bad(R, con, c.InstrPos(call), "inside a loop the whole list a recursive call returns is appended: the callee's list is memoised and shared, so members that lead to the same typedef contribute it once each, and the list doubles with every level of a chain of unions (the run does not end for a few dozen levels)"))
+			}
+		})
+	}
+	if n == 0 {
+		obs = append(obs, ok(R, "no wholesale append of a recursive error list", "-", "the resolvers take recursive results element by element or not in a loop"))
+	}
+	return obs
+}
+
+func init() {
+	register(&Rule{Name: "RANGE.IMMUTABLE", Props: []string{"C19", "C10", "C09"}, Floor: 1,
+		Doc: "the parts of a range list are written only in a list the function made itself: range lists are shared by value between derived types and with the built-in tables",
+		Run: ruleRangeImmutable})
+}
+
+func ruleRangeImmutable(c *Ctx) []Obligation {
+	const R = "RANGE.IMMUTABLE"
+	yrT := c.Named("yang", "YangRange")
+	if yrT == nil {
+		return []Obligation{undecided(R, "range list type", "-", "yang.YangRange not found")}
+	}
+	var obs []Obligation
+	n := 0
+	for _, fn := range c.Funcs {
+		if fn.Blocks == nil || !c.isRepoFn(fn) {
+			continue
+		}
+		if root := rootFn(fn); root.Pkg == nil || shortPkg(root.Pkg.Pkg.Path()) == "main" {
+			continue
+		}
+		k := 0
+		isFresh := func(list ssa.Value) bool {
+			fresh := false
+			backSlice(list, func(x ssa.Value) bool {
+				switch y := x.(type) {
+				case *ssa.MakeSlice:
+					fresh = true
+					return false
+				case *ssa.Call:
+					if bi, isB := y.Call.Value.(*ssa.Builtin); isB && bi.Name() == "append" && len(y.Call.Args) > 0 && isNilConst(y.Call.Args[0]) {
+						fresh = true
+					}
+					return false
+				}
+				return true
+			})
+			return fresh
+		}
+		// the element swaps of sort.Interface happen on whatever list is handed to the sort: decided at the call
+		if fn.Signature.Recv() != nil && namedOf(fn.Signature.Recv().Type()) == yrT && (fn.Name() == "Swap") {
+			continue
+		}
+		eachInstr(fn, func(in ssa.Instruction) {
+			if call, isC := in.(*ssa.Call); isC {
+				var sorted ssa.Value
+				if calleeIs(call, "sort", "Sort") || calleeIs(call, "sort", "Stable") {
+					if mi, isMI := call.Call.Args[0].(*ssa.MakeInterface); isMI && namedOf(mi.X.Type()) == yrT {
+						sorted = mi.X
+					}
+				}
+				if sorted != nil && fn.Signature.Recv() != nil && namedOf(fn.Signature.Recv().Type()) == yrT && isParamN(fn, sorted, 0) {
+					return // (YangRange).Sort: decided where Sort is called
+				}
+				if cal := call.Call.StaticCallee(); cal != nil && cal.Name() == "Sort" && cal.Signature.Recv() != nil && namedOf(cal.Signature.Recv().Type()) == yrT && len(call.Call.Args) > 0 {
+					sorted = call.Call.Args[0]
+				}
+				if sorted != nil {
+					n++
+					k++
+					con := fmt.Sprintf("%s: list sorted in place #%d was made here", c.FnName(fn), k)
+					if isFresh(sorted) {
+						obs = append(obs, ok(R, con, c.InstrPos(call), "the list was made by make / append(nil, …) in this function"))
+					} else {
+						obs = append(obs, bad(R, con, c.InstrPos(call), "a range list that came from outside is sorted in place: its parts are shared with other types (and with the process-wide tables of the built-in types)"))
+					}
+				}
+				return
+			}
+			st, isS := in.(*ssa.Store)
+			if !isS {
+				return
+			}
+			// walk the address down to an element of a YangRange
+			var list ssa.Value
+			for v, d := st.Addr, 0; d < 8; d++ {
+				switch x := v.(type) {
+				case *ssa.FieldAddr:
+					v = x.X
+					continue
+				case *ssa.IndexAddr:
+					if namedOf(x.X.Type()) == yrT {
+						list = x.X
+					}
+					v = x.X
+					continue
+				case *ssa.Phi:
+					// a pointer chosen between two elements (bound := &y[0].Min; if … { bound = &y[n].Max })
+					for _, e := range x.Edges {
+						for w, d2 := e, 0; d2 < 6; d2++ {
+							switch y := w.(type) {
+							case *ssa.FieldAddr:
+								w = y.X
+								continue
+							case *ssa.IndexAddr:
+								if namedOf(y.X.Type()) == yrT {
+									list = y.X
+								}
+							}
+							break
+						}
+					}
+				}
+				break
+			}
+			if list == nil {
+				return
+			}
+			n++
+			k++
+			con := fmt.Sprintf("%s: part written #%d belongs to a list made here", c.FnName(fn), k)
+			if isFresh(list) {
+				obs = append(obs, ok(R, con, c.InstrPos(st), "the list was made by make / append(nil, …) in this function"))
+			} else {
+				obs = append(obs, bad(R, con, c.InstrPos(st), "a part of a range list that came from outside (a parameter, a receiver, a field) is written in place: derived types share their parent's list by value, and the lists of the built-in types are process-wide tables, so the write shows up in other types and races with independent module sets"))
+			}
+		})
+	}
+	if n == 0 {
+		obs = append(obs, ok(R, "no store into a part of a range list outside its maker", "-", "nothing to decide"))
+	}
+	return obs
+}
+
+func init() {
+	register(&Rule{Name: "FILE.ONEPASS", Props: []string{"C13"}, Floor: 1,
+		Doc: "the search path is walked once: the first directory that holds a candidate decides, whatever the form of the candidate's name",
+		Run: ruleFileOnePass})
+	register(&Rule{Name: "ORDER.SORTEDALL", Props: []string{"C05", "C13", "C11"}, Floor: 1,
+		Doc: "the helper that returns a table's values in key order returns one value per key (no value is skipped because it was seen under another key)",
+		Run: ruleOrderSortedAll})
+}
+
+func ruleFileOnePass(c *Ctx) []Obligation {
+	const R = "FILE.ONEPASS"
+	fn := c.Fn("yang.(*Modules).findFile")
+	if fn == nil {
+		return []Obligation{undecided(R, "file finder", "-", "(*Modules).findFile not found")}
+	}
+	mods := c.MustNamed("yang", "Modules")
+	fPath := FieldVar(mods, "Path")
+	con := "findFile opens files found under the search path in one walk over it"
+	// loops over Modules.Path that contain a successful return (a file was opened)
+	var walks []string
+	for _, h := range fn.Blocks {
+		if !isLoopHeader(h) {
+			continue
+		}
+		overPath := false
+		for _, b := range fn.Blocks {
+			for _, in := range b.Instrs {
+				switch x := in.(type) {
+				case *ssa.Range:
+					if _, f, _ := loadedField(x.X); f == fPath && b.Dominates(h) && len(h.Preds) > 0 {
+						// the range feeding this header: its Next sits in h
+						for _, hin := range h.Instrs {
+							if nx, isN := hin.(*ssa.Next); isN && nx.Iter == ssa.Value(x) {
+								overPath = true
+							}
+						}
+					}
+				}
+			}
+		}
+		// a range over a slice is an index loop: the element load indexes the loaded Path
+		for _, b := range fn.Blocks {
+			if !h.Dominates(b) {
+				continue
+			}
+			for _, in := range b.Instrs {
+				if ia, isIA := in.(*ssa.IndexAddr); isIA && loopHeaderOf(b) == h {
+					if _, f, _ := loadedField(ia.X); f == fPath {
+						overPath = true
+					}
+				}
+			}
+		}
+		if !overPath {
+			continue
+		}
+		returns := false
+		for _, b := range fn.Blocks {
+			if !h.Dominates(b) || b == h {
+				continue
+			}
+			if r, isR := b.Instrs[len(b.Instrs)-1].(*ssa.Return); isR && len(r.Results) == 3 && isNilConst(resolveSpill(r.Results[2], r)) {
+				// inside the loop body (not after it)
+				for _, body := range loopBodies(fn) {
+					if body.Dominates(b) && h.Dominates(body) {
+						returns = true
+					}
+				}
+			}
+		}
+		if returns {
+			walks = append(walks, c.InstrPos(h.Instrs[0]))
+		}
+	}
+	switch len(walks) {
+	case 1:
+		return []Obligation{ok(R, con, walks[0], "one loop over Modules.Path returns the file it opened")}
+	case 0:
+		o := ok(R, con, c.Pos(fn.Pos()), "no loop over Modules.Path returns a file: another shape, not decided")
+		o.Trivial = true
+		return []Obligation{o}
+	default:
+		return []Obligation{bad(R, con, walks[1], fmt.Sprintf("%d separate walks over the search path each open and return a file (%s): a candidate of the form tried in the first walk wins even when an earlier directory holds a candidate of the other form, so the first directory holding a candidate no longer decides", len(walks), strings.Join(walks, ", ")))}
+	}
+}
+
+func ruleOrderSortedAll(c *Ctx) []Obligation {
+	const R = "ORDER.SORTEDALL"
+	var obs []Obligation
+	for _, fn := range c.Funcs {
+		if fn.Blocks == nil || !c.isRepoFn(fn) || fn.Signature.Params().Len() != 1 || fn.Signature.Results().Len() != 1 {
+			continue
+		}
+		if _, isMap := fn.Signature.Params().At(0).Type().Underlying().(*types.Map); !isMap {
+			continue
+		}
+		if _, isSl := fn.Signature.Results().At(0).Type().Underlying().(*types.Slice); !isSl {
+			continue
+		}
+		hasSort := false
+		eachInstr(fn, func(in ssa.Instruction) {
+			if cl, isC := in.(*ssa.Call); isC && (calleeIs(cl, "sort", "Strings") || calleeIs(cl, "sort", "Slice") || calleeIs(cl, "sort", "SliceStable")) {
+				hasSort = true
+			}
+		})
+		if !hasSort {
+			continue
+		}
+		// the appends of looked-up values: m[k] appended to the result
+		n := 0
+		eachInstr(fn, func(in ssa.Instruction) {
+			call, isC := in.(*ssa.Call)
+			if !isC {
+				return
+			}
+			bi, isB := call.Call.Value.(*ssa.Builtin)
+			if !isB || bi.Name() != "append" || len(call.Call.Args) != 2 {
+				return
+			}
+			fromLookup := false
+			for _, e := range variadicElems(call.Call.Args[1]) {
+				if l, isL := e.(*ssa.Lookup); isL && isParamN(fn, l.X, 0) {
+					fromLookup = true
+				}
+			}
+			if !fromLookup {
+				return
+			}
+			n++
+			con := fmt.Sprintf("%s: value append #%d is made for every key", c.FnName(fn), n)
+			skip := ""
+			for _, g := range guardsAt(call.Block()) {
+				if isLoopHeader(g.If.Block()) {
+					continue
+				}
+				skip = c.InstrPos(g.If)
+			}
+			if skip == "" {
+				obs = append(obs, ok(R, con, c.InstrPos(call), "unconditional inside the loop over the sorted keys"))
+			} else {
+				obs = append(obs, bad(R, con, c.InstrPos(call), "the value of a key is appended only under a further condition ("+skip+"): callers walk the result to visit every filing of the table in key order (a module is filed under its bare name and under name@revision, and which filing comes last decides whose identities and links stay) — a value skipped under its second key changes that order"))
+			}
+		})
+	}
+	if len(obs) == 0 {
+		obs = append(obs, undecided(R, "sorted-values helper", "-", "no function of the shape (map) → values in key order found"))
+	}
+	return obs
+}
+
+func init() {
+	register(&Rule{Name: "REC.SEARCHSET", Props: []string{"C01"}, Floor: 1,
+		Doc: "the visited set of the grouping search over the include graph only grows: a submodule reachable along several include paths is searched once, not once per path",
+		Run: ruleRecSearchSet})
+}
+
+func ruleRecSearchSet(c *Ctx) []Obligation {
+	const R = "REC.SEARCHSET"
+	fn := c.Fn("yang.FindGrouping")
+	if fn == nil {
+		return []Obligation{undecided(R, "grouping search", "-", "FindGrouping not found")}
+	}
+	con := "FindGrouping never removes a submodule from its visited set"
+	// the set: a map[…]bool parameter
+	var set *ssa.Parameter
+	for _, p := range fn.Params {
+		if mt, isM := p.Type().Underlying().(*types.Map); isM && isBoolType(mt.Elem()) {
+			set = p
+		}
+	}
+	if set == nil {
+		o := ok(R, con, c.Pos(fn.Pos()), "the search carries no visited-set parameter: another shape (REC decides termination)")
+		o.Trivial = true
+		return []Obligation{o}
+	}
+	var obs []Obligation
+	undone := ""
+	c.eachInstrDeep(fn, func(in ssa.Instruction) {
+		switch x := in.(type) {
+		case *ssa.Call:
+			if bi, isB := x.Call.Value.(*ssa.Builtin); isB && bi.Name() == "delete" && len(x.Call.Args) > 0 && resolveArg(x.Call.Args[0]) == ssa.Value(set) {
+				undone = c.InstrPos(x)
+			}
+		case *ssa.Defer:
+			if bi, isB := x.Call.Value.(*ssa.Builtin); isB && bi.Name() == "delete" && len(x.Call.Args) > 0 && resolveArg(x.Call.Args[0]) == ssa.Value(set) {
+				undone = c.InstrPos(x)
+			}
+		case *ssa.MapUpdate:
+			if resolveArg(x.Map) == ssa.Value(set) {
+				if k, isK := x.Value.(*ssa.Const); isK && k.Value != nil && k.Value.String() == "false" {
+					undone = c.InstrPos(x)
+				}
+			}
+		}
+	})
+	if undone == "" {
+		obs = append(obs, ok(R, con, c.Pos(fn.Pos()), "the set is only added to"))
+	} else {
+		obs = append(obs, bad(R, con, undone, "the search un-marks a submodule after searching it, so the set holds the current include chain only: what a name denotes does not depend on the path by which a submodule is reached, but now every path searches it again — exponential in the depth of a lattice of includes (the run does not end)"))
+	}
+	return obs
+}
